@@ -11,10 +11,10 @@ NOTE = ("Trusted base: z3 5.1; the engine's fork/replay logic; the numpy/pandas 
         "lru_cache/joblib transparency; the size bounds listed in the evidence file.")
 
 CLAIMED = {
-    "C16": ("2 (C16)", "PARTIAL, stated: for nine closed-form panel transformers and the column ensemble around stub members (symbolic cell values on the real numpy/pandas), every permutation of the instances permutes the output rows identically, a single instance gives the corresponding batch row, and a 3-D array input gives the same result as the nested frame. Fitted classifiers / regressors (C trees, numba dictionaries) are not applicable to this technique and not claimed."),
-    "C17": ("2 (C17)", "PARTIAL, stated: the time-series-forest kernels run as functions on a duck-typed self with stub trees whose probability rows are symbolic distributions - averaged output is a distribution and equals the mean of the trees, predict attains the maximal probability in the training label set (ints, strings, non-contiguous), features are (mean, std, slope) per interval in order, sampled intervals lie inside the series for every generator outcome (symbolic), forest-regressor prediction = mean of trees, column-ensemble probabilities = mean of the members on their own columns, BaseClassifier.predict/score. Anything needing a really fitted classifier is not applicable and not claimed."),
+    "C16": ("2 (C16)", "PARTIAL, stated: for nine closed-form panel transformers and the column ensemble around stub members (symbolic cell values on the real numpy/pandas), every permutation of the instances permutes the output rows (and, for the column ensemble, the predicted labels, ties included) identically, a single instance gives the corresponding batch row also in panels that mix integer-typed and real-valued cells, and a 3-D array input gives the same result as the nested frame. Fitted classifiers / regressors (C trees, numba dictionaries) are not applicable to this technique and not claimed."),
+    "C17": ("2 (C17)", "PARTIAL, stated: the time-series-forest kernels run as functions on a duck-typed self with stub trees whose probability rows are symbolic distributions - averaged output is a distribution and equals the mean of the trees for either number of jobs, predict attains the maximal probability in the training label set (ints, strings, non-contiguous), features are (mean, std, slope) per interval in order, sampled intervals lie inside the series for every generator outcome (symbolic), forest-regressor prediction = mean of trees, column-ensemble probabilities = mean of the members on their own columns, BaseClassifier.predict/score. Anything needing a really fitted classifier is not applicable and not claimed."),
     "C12": ("2 (C12)", "PARTIAL, stated: for 13 series transformers, 8 forecasters / composites (symbolic world) and 10 panel transformers (token arrays on the real numpy/pandas; nested frame and 3-D array containers; PCATransformer over scikit-learn's documented copy contract), with symbolic values so that the outlier / missing-value / window branches are all explored: the caller's data after fit and after apply-type calls are term-equal to the data before, a repeated (and interleaved inverse) apply returns term-equal results, and a snapshot of the estimator's attributes is unchanged by apply-type calls. The thread-schedule / n_jobs / pickle / random_state parts of the property are not applicable to this technique and are not claimed."),
-    "C14": ("2 (C14)", "Reduced to the listed closed-form transformers: PaddingTransformer, TruncationTransformer, PAA, Tabularizer, ColumnConcatenator, IntervalSegmenter (int and array intervals), SlidingWindowSegmenter, RandomIntervalFeatureExtractor (mean/std/slope of the fitted intervals), SeriesToSeriesRowTransformer, _slope, CosineTransformer and six Imputer rules, run on the real numpy/pandas with symbolic cell values (token arrays); every output cell proved equal to the documented closed form (exactly, or within 1e-9 relative where the code itself computes with inexact float constants), rows in input order, requested lengths."),
+    "C14": ("2 (C14)", "Reduced to the listed closed-form transformers: PaddingTransformer, TruncationTransformer, PAA, Tabularizer, ColumnConcatenator, IntervalSegmenter (int and array intervals), SlidingWindowSegmenter, RandomIntervalFeatureExtractor (mean/std/slope of the fitted intervals), SeriesToSeriesRowTransformer, _slope, CosineTransformer and six Imputer rules, run on the real numpy/pandas with symbolic cell values (token arrays), plus TSInterpolator over the documented contract of scipy's interp1d and AutoCorrelationTransformer over a recording contract stub of statsmodels' acf (counterexamples are replayed on the real scipy / statsmodels against the textbook formulas); every output cell proved equal to the documented closed form (exactly, or within 1e-9 relative where the code itself computes with inexact float constants), rows in input order, requested lengths."),
     "C04": ("2 (C04)", "Reduced scope, stated: every public estimator class of the modules that load in the sandbox (listed in the evidence, with the modules that do not) is constructed with symbolic int/float/bool arguments and opaque tokens for everything else; stored attribute = get_params = passed value (z3 term equality / identity), clone and set_params round trips, unknown names rejected, nested component__param read/write and component replacement for the composites (symbolic values, concrete names), is_fitted False when fresh or cloned, apply-type methods raise NotFittedError before fit, fit returns self and leaves parameters unchanged."),
     "C15": ("2 (C15)", "Every conversion path of length <= 3 between nested (Series / array cells), 3-D array, multi-index, long and 2-D representations, plus check_X coercions and the nestedness predicates, executed on the real pandas with opaque symbolic tokens as cell values; each output cell is proved (term equality) to be the input token at the same (instance, column, time) position; sizes enumerated within the bounds. Weak use of the solver, stated as such."),
     "C19": ("2 (C19)", "The real Orchestrator / results classes executed with symbolic flags, symbolic store state and a symbolic failure point: (i) one loop iteration with 4 option flags and 3 existence answers as symbolic Booleans - skip iff nothing requested is missing and nothing is to be overwritten, exactly the missing/overwritten records written, records honest; (ii) run - fail at the K-th fit/predict (K symbolic, forked over every call) - resume - rerun - overwrite on a temporary on-disk store, compared with an uninterrupted run (files, registry, load_predictions); plus Orchestrator.fit and RAMResults read-back."),
